@@ -122,7 +122,9 @@ impl Monitor for C01 {
         let mut rng = w.rng("C01", 1);
         let cfg = GenCfg::std(STD_ALPHA);
         for k in 0..n {
-            let ast = if k % 4 == 3 { gen_shortcut(&mut rng, &cfg) } else { gen_pattern(&mut rng, &cfg) };
+            // (one in sixteen: the back-reference shapes of C19 - group in an abandoned alternative,
+            // optional group, group in a loop - where is_match depends on captures being forgotten)
+            let ast = if k % 16 == 9 { super::refprops::gen_backref_shape(&mut rng) } else if k % 4 == 3 { gen_shortcut(&mut rng, &cfg) } else { gen_pattern(&mut rng, &cfg) };
             let fl = FLAG_SUBSETS[rng.below(FLAG_SUBSETS.len())];
             for _ in 0..3 {
                 let inp = gen_input(&mut rng, &ast, STD_EXTRA, 8);
